@@ -226,11 +226,15 @@ def interp(ctx, aid, table):
         ctx.done_latch(aid).set()
 
 
+class NoChannel(LookupError):
+    """Harness-level: an earlier op that should have produced the channel failed."""
+
+
 def _ch(table, label):
     try:
         return table[label]
     except KeyError:
-        raise LookupError(f"no channel {label!r} in table") from None
+        raise NoChannel(f"no channel {label!r} in table") from None
 
 
 def do_op(ctx, aid, oi, table, op):
@@ -444,6 +448,37 @@ def do_op(ctx, aid, oi, table, op):
             else:
                 f.write(_filedata(wdata))
         f.close()
+        return ("ok",)
+    if k == "mc_make":
+        # ["mc_make", name, [labels]]
+        multi = ctx.w.mods["multi"]
+        table[op[1]] = multi.MultiChannel([_ch(table, l) for l in op[2]])
+        return ("ok",)
+    if k == "mc_drain":
+        # ["mc_drain", name, labels, want_end, total_items, timeout]
+        mc = table[op[1]]
+        labels = op[2]
+        chans = [table[l] for l in labels]
+        q = mc.make_receive_queue(endmarker=ENDM) if op[3] else mc.make_receive_queue()
+        need_end = len(labels) if op[3] else 0
+        need_items = op[4]
+        Empty = ctx.w.execmodel_for(s.current.proc, "thread").queue.Empty
+        while need_end > 0 or (not op[3] and need_items > 0):
+            try:
+                chan, item = q.get(timeout=op[5])
+            except Empty:
+                return ("timeout", need_end, need_items)
+            lab = None
+            for l, c in zip(labels, chans):
+                if c is chan:
+                    lab = l
+            if item is ENDM or item == ENDM:
+                need_end -= 1
+                ctx.rec(aid, oi, "sub", ("end", lab))
+            else:
+                need_items -= 1
+                ctx.rec(aid, oi, "sub", ("item", token_of(item), canon(item), lab))
+            del chan, item
         return ("ok",)
     if k == "terminate":
         ctx.group.terminate(op[1])
